@@ -7,6 +7,7 @@ My own variation on function-specific inspect-like features.
 # License: BSD Style, 3 clauses.
 
 import collections
+import functools
 import inspect
 import os
 import re
@@ -44,6 +45,17 @@ def get_func_code(func):
     more robust.
     """
     source_file = None
+    if isinstance(func, functools.partial):
+        # The repr of a partial object contains the address of the wrapped
+        # function, which changes from one process to another: use the code
+        # of the wrapped function and the frozen arguments instead.
+        func_code, source_file, first_line = get_func_code(func.func)
+        func_code = "%s\n# functools.partial: args=%r, keywords=%r" % (
+            func_code,
+            func.args,
+            func.keywords,
+        )
+        return func_code, source_file, first_line
     try:
         code = func.__code__
         source_file = code.co_filename
